@@ -24,6 +24,11 @@ claimed = {
    text="Inductive unit lemmas of the real entropy coder from arbitrary symbolic state (div = round-to-nearest for every coefficient/factor; emitBits keeps the bit-accumulator invariant and byte-stuffs every 0xFF; emitHuffmanRun's output decodes, with canonical codes rebuilt from the DHT bytes the encoder itself writes, to the same (run, value) for every value and run) plus whole-file harnesses through the public API (Reset, AddN): sparse symbolic blocks are decoded by an independent baseline-JPEG reader and compared coefficient by coefficient with div(coef, q); headers, sampling factors, tables, unit counting, too-many / wrong-N / after-error call sequences.",
    note="Bounds: blocks with symbolic DC and <= 2 symbolic AC positions from a list of zig-zag patterns (adjacent, run 15/16/17, >= 32, last); <= 2 units; three quantisation tables; image sizes symbolic in the unit-count harness only. Dense blocks, the DCT pair and 'no allocation' are outside. Trusted: the JPEG reader in harness/go/c18, gossa, z3.",
    tech="symbolic execution of go/ssa + SMT, inductive step lemmas, reference entropy decoder oracle, native replay"),
+
+ "C13": dict(cat="model_checking", design="DESIGN.md §4 C13",
+   text="rac.Writer driven symbolically through its public API with a length-framed store codec (supports Cut and shared resources): every payload of N symbolic bytes, every partition into up to WRITES Write calls (split points symbolic), both chunk-sizing modes, page sizes, both index locations, plain and seekable temp files, 0-2 shared resources chosen nondeterministically per chunk. When Close returns nil the produced bytes must pass a walker written from doc/spec/rac-spec.md (root discovery, branch-node validation, parent/child and anti-loop rules, MakeCRange, contiguous leaves) whose reconstruction equals the payload byte for byte, and the real rac.Reader must return exactly the payload. Fault harness: the k-th I/O call (k symbolic) on the underlying writer / temp file fails; the failure must be reported by that call and stay reported by every later Write and Close. Unit lemmas: one writeBuffer operation from an arbitrary state against the abstract byte sequence.",
+   note="Bounds: quick N<=8, WRITES<=3, chunk sizes 1-3 data bytes, CPageSize in {0,4,8}; thorough N<=8 with three writes. One index level only (arity <= 255). Real zlib/lz4/zstd codecs are outside (stub codec instead); trusted: the spec walker and stub codec in harness/go/c13, gossa, z3.",
+   tech="symbolic execution of go/ssa + SMT (payload bytes, split points and fault point symbolic), spec-walker oracle, native replay"),
 }
 na = {
 }
